@@ -122,6 +122,7 @@ static int64_t pick_i(vr_rng *r)
 }
 
 static void *alpha[3] = { (void *)0x1000, (void *)0x2000, NULL };
+static void *stored_alpha[4] = { (void *)0x1000, (void *)0x2000, NULL, (void *)(uintptr_t)UINT64_MAX };   /* a stored all-ones word (e.g. the signal -1) is data, not a wildcard */
 
 void vr_case(uint64_t seed, uint64_t idx, int profile)
 {
@@ -201,7 +202,7 @@ void vr_case(uint64_t seed, uint64_t idx, int profile)
                 if (askkey == 0) break;
             }
             uint64_t size_before = hp->heap_size;
-            e.item[0] = alpha[vr_below(&r, 3)]; e.item[1] = alpha[vr_below(&r, 3)];
+            e.item[0] = stored_alpha[vr_below(&r, 4)]; e.item[1] = stored_alpha[vr_below(&r, 4)];
             e.item[2] = (void *)(uintptr_t)(++uid); e.item[3] = (void *)(uintptr_t)vr_mix(uid);
             e.d = pick_d(&r); e.i = pick_i(&r);
             if (kind == K_HOLD) e.d = 0.0;
